@@ -18,6 +18,8 @@ RULE = ("A history = 1..3 generated scripts (plain programs with argument-less o
         "recorded at creation (or after the machine's own last mutation of that member). Non-trivial = history with a graph conversion "
         "or match AND an instance mutation, on a pool containing an argument-less operation. Distinct = SHA-1 of scripts + steps. "
         "Shrinking works on the step list as one value.")
+RULE += (" One pool in six starts with a template/program pair written with keyword arguments (the same operations and modes; the "
+         "program gives the template's keywords, fewer, more or none) that is matched early and often.")
 ASSUMPTIONS = ["canonical snapshot (bbv/canon.py) covers name, version, target, type, options, parameters, modes, operations, variables"]
 BUDGET = {"quick": (320, 4), "thorough": (6400, 16)}
 
@@ -62,11 +64,48 @@ def tdm_pair(draw):
 
 
 @st.composite
+def kw_pair(draw):
+    """(template text, program text): the same operations on the same modes; the template's operations carry keyword arguments
+    (numbers or {y}), the program's operations give the same keywords, fewer, more or none at all."""
+    n = draw(st.integers(1, 4))
+    t_lines, p_lines = [], []
+    k = 0
+    for i in range(n):
+        op = draw(st.sampled_from(["Sgate", "Rgate", "BSgate", "MeasureHomodyne"]))
+        modes = draw(st.lists(st.integers(0, 3), min_size=1, max_size=2, unique=True))
+        ta, pa = [], []
+        for _ in range(draw(st.integers(0, 2))):
+            v = str(draw(st.sampled_from([0.0, 0.5, 1.25])))
+            if draw(st.booleans()):
+                ta.append("{x%d}" % k)
+                k += 1
+            else:
+                ta.append(v)
+            pa.append(v)
+        for key in draw(st.lists(st.sampled_from(["phi", "select", "r", "cutoff"]), max_size=3, unique=True)):
+            v = str(draw(st.sampled_from([0.1, 2, 0.75])))
+            where = draw(st.sampled_from(["both", "both", "template", "template", "program"]))
+            if where in ("both", "template"):
+                ta.append("%s=%s" % (key, v if draw(st.booleans()) else "{y%d}" % i))
+            if where in ("both", "program"):
+                pa.append("%s=%s" % (key, v))
+        m = "[%s]" % ", ".join(map(str, modes))
+        t_lines.append("%s(%s) | %s" % (op, ", ".join(ta), m) if ta else "%s | %s" % (op, m))
+        p_lines.append("%s(%s) | %s" % (op, ", ".join(pa), m) if pa else "%s | %s" % (op, m))
+    head = "name kwpair\nversion 1.0\n"
+    return head + "\n".join(t_lines) + "\n", head + "\n".join(p_lines) + "\n"
+
+
+@st.composite
 def case(draw, tier):
     big = tier != "quick"
     scripts = []
-    if draw(st.integers(0, 2)) == 0:
+    sel = draw(st.integers(0, 5))
+    if sel in (0, 1):
         t, p = draw(tdm_pair())
+        scripts.extend([{"text": t}, {"text": p}])
+    elif sel == 2:
+        t, p = draw(kw_pair())
         scripts.extend([{"text": t}, {"text": p}])
     scripts.append(draw(S.script(S.Cfg(max_items=6, depth=1, params=True, sym_vars=draw(st.booleans()), regs=draw(st.booleans()),
                                        array_weight=2, whole_array_odds=1))))
